@@ -28,7 +28,7 @@ theorem own_via_element_always_detected (host app ver pre post : Bytes) (vias : 
 /-- A detected loop is never forwarded. -/
 theorem loop_never_forwarded (host app : Bytes) (m : Method) (vias mfs : List Bytes)
     (h : loopDetected host app vias = true) : (outcome host app m vias mfs).isForward = false := by
-  unfold outcome
+  unfold outcome outcomeWith
   split
   · rfl
   · split
@@ -45,7 +45,7 @@ theorem own_via_never_forwarded (host app ver pre post : Bytes) (m : Method) (vi
 theorem max_forwards_zero_answered_locally (host app : Bytes) (m : Method) (vias mfs : List Bytes)
     (hm : m = .trace ∨ m = .options) (h0 : getInt64 mfs = 0) :
     (outcome host app m vias mfs).isForward = false := by
-  unfold outcome
+  unfold outcome outcomeWith
   rcases hm with hm | hm <;> subst hm <;> simp [h0, Outcome.isForward]
 
 /-- When a TRACE/OPTIONS request is forwarded, every Max-Forwards value sent upstream is a received positive value
@@ -53,7 +53,7 @@ minus one, in order, and the first received value, when positive, is forwarded a
 theorem forwarded_value_is_n_minus_1 (host app : Bytes) (m : Method) (vias : List Bytes) (v : Bytes) (rest : List Bytes)
     (n : Int) (outs : List Int) (hm : m = .trace ∨ m = .options) (hv : parseOffset v = some n) (hn : 0 < n)
     (hf : outcome host app m vias (v :: rest) = .forward outs) : outs.head? = some (n - 1) := by
-  unfold outcome at hf
+  unfold outcome outcomeWith at hf
   split at hf
   · cases hf
   · split at hf
@@ -78,6 +78,18 @@ theorem forwarded_values_nonneg (m : Method) (mfs : List Bytes) : ∀ x ∈ mfOu
       · cases hv
     · cases hv
   · simp at hx
+
+/-- The same on reverse-proxy (accel) ports, whatever the CDN-Loop check says: it can only add loop detections. -/
+theorem own_via_never_forwarded_any_port (cdnLoop : Bool) (host app ver pre post : Bytes) (m : Method) (vias mfs : List Bytes)
+    (hm : pre ++ (viaElement ver host app ++ post) ∈ vias) :
+    (outcomeWith cdnLoop host app m vias mfs).isForward = false := by
+  have h := own_via_element_always_detected host app ver pre post vias hm
+  unfold outcomeWith
+  split
+  · rfl
+  · split
+    · rfl
+    · simp [h, Outcome.isForward]
 
 -- non-vacuity: concrete requests
 -- Via: "1.0 fred, 1.1 h (a)" with host "h", app "a" is a loop; "1.1 hh (a)" is not.
